@@ -148,7 +148,16 @@ check('C09', 'round-trip oracle (parse -> MarkdownRenderer -> parse) over Hypoth
       'list items, empty ATX heading with closing sequence). Sampling except for the corpus part.',
       'DESIGN.md 5/C09')
 
+check('C10', 'Hypothesis-generated G4 documents over a reflow-safe vocabulary x line length L; metamorphic oracles: whitespace-normalised HTML and definitions unchanged, unbreakable blocks unchanged, line-length rule, idempotence',
+      'hypothesis-sharded + enumeration-pool',
+      'Each generated document (containers to depth 4, emphasis, code spans, links, images, hard breaks, definitions) is reflowed with a '
+      'drawn L in 1..120; the result must parse to the same whitespace-normalised HTML and definitions, leave code / HTML blocks, tables and '
+      'ATX headings untouched, have no breakable space on any line longer than L, and be a fixed point of the same reflow. Hand-written '
+      'documents are swept over every L in 1..60.',
+      'Domain excludes words / constructs that become block markers at a line start, character references, code spans with edge or '
+      'double spaces (recorded findings). Titles and image descriptions are compared whitespace-collapsed (the renderer wraps them by design).',
+      'DESIGN.md 5/C10')
+
 _PENDING = 'check not built yet in this revision (work in progress; technique applies, see DESIGN.md section 5)'
-for _p in ['C10',
-           ]:
+for _p in []:
     NOT_YET[_p] = _PENDING
